@@ -247,6 +247,15 @@ Definition psd_decided (margin tol : Q) (G : list (list Q)) : option bool :=
 Definition Qclose9 (x y : Q) : bool := Qle_bool (Qabs' (x - y)) ((1 # 1000000000) * (1 + Qabs' y)).
 Definition mat_agree (exact : bool) (impl model : list (list Q)) : bool :=
   if exact then qll_eqb impl model else qclose_ll impl model.
+(** scale-aware agreement: every entry within [tol], where the shard passes [tol] = 2^-30 x an a-priori bound of the entries
+    computed from the input (weights, frequencies, ploidy) — a tolerance that shrinks with the scale of the data *)
+Definition mat_within (tol : Q) (impl model : list (list Q)) : bool :=
+  list_eqb (list_eqb (fun x y => Qle_bool (Qabs' (x - y)) tol)) impl model.
+(** means: the usual 2^-30 (1 + |y|) tolerance plus a [slack] that the shard sets to 0 for matrices with entries up to 2^11 and to
+    2^-40 max|G| beyond (summation error of a mean that cancels, for up-scaled marker weights) *)
+Definition mean_agree (slack impl model : Q) : bool :=
+  Qle_bool (Qabs' (impl - model)) ((1 # 1073741824) * (1 + Qabs' model) + slack).
+Definition meanl_agree (slack : Q) (impl model : list Q) : bool := list_eqb (mean_agree slack) impl model.
 Definition vec_agree (exact : bool) (impl model : list Q) : bool :=
   if exact then ql_eqb impl model else qclose_l impl model.
 Definition q_agree (exact : bool) (impl model : Q) : bool :=
